@@ -1,8 +1,15 @@
-// bench: development helper — times the stages of one C01 case.
+// bench: development helper — CPU cost per program of each progfam family
+// (reference run, rendering, golua runs), measured with getrusage so that a
+// loaded machine does not distort it.
+//
+//	go run ./cmd/c01/bench [tier] [samples-per-family]
 package main
 
 import (
 	"fmt"
+	"os"
+	"strconv"
+	"syscall"
 	"time"
 
 	rt "github.com/arnodel/golua/runtime"
@@ -13,44 +20,79 @@ import (
 	"verif/engine/reflua"
 )
 
+func cpu() time.Duration {
+	var ru syscall.Rusage
+	syscall.Getrusage(syscall.RUSAGE_SELF, &ru)
+	return time.Duration(ru.Utime.Nano() + ru.Stime.Nano())
+}
+
 func main() {
-	f := progfam.All("quick")[0]
-	const N = 2000
-	var ps []*prog.Prog
-	for i := uint64(100000); len(ps) < N; i++ {
-		if p := f.At(i); p != nil {
-			ps = append(ps, p)
+	tier := "quick"
+	n := 300
+	if len(os.Args) > 1 {
+		tier = os.Args[1]
+	}
+	if len(os.Args) > 2 {
+		n, _ = strconv.Atoi(os.Args[2])
+	}
+	var total time.Duration
+	for _, f := range progfam.All(tier) {
+		step := f.Size / uint64(n)
+		if step == 0 {
+			step = 1
 		}
+		var ps []*prog.Prog
+		var nilc, cnt uint64
+		t0 := cpu()
+		for i := uint64(0); i < f.Size; i += step {
+			cnt++
+			if p := f.At(i); p != nil {
+				ps = append(ps, p)
+			} else {
+				nilc++
+			}
+		}
+		tAt := cpu() - t0
+		t0 = cpu()
+		skipped := 0
+		for _, p := range ps {
+			var a []reflua.Value
+			for _, v := range p.Args {
+				a = append(a, v)
+			}
+			r := reflua.Run(p, a)
+			if r.Unspec != "" || r.Diverge {
+				skipped++
+			}
+		}
+		tRef := cpu() - t0
+		t0 = cpu()
+		var srcs []string
+		for _, p := range ps {
+			s, _ := prog.Render(p, prog.Plain)
+			srcs = append(srcs, s)
+		}
+		tRender := cpu() - t0
+		t0 = cpu()
+		for _, s := range srcs {
+			m := host.NewMachine(false)
+			m.Exec("chunk", s, nil, &rt.RuntimeContextDef{HardLimits: rt.RuntimeResources{Cpu: 5000000}})
+			m.Close()
+		}
+		tRun := cpu() - t0
+		np := time.Duration(len(ps))
+		if np == 0 {
+			np = 1
+		}
+		valid := float64(len(ps)) / float64(cnt)
+		perProg := tRef/np + 8*tRender/np + 4*tRun/np
+		if tier == "thorough" {
+			perProg = tRef/np + 6*tRender/np + 8*tRun/np
+		}
+		est := time.Duration(float64(f.Size)*valid)*perProg + time.Duration(f.Size)*(tAt/time.Duration(cnt))
+		total += est
+		fmt.Printf("%-26s size=%-9d valid=%.2f refskip=%d/%d  At=%v ref=%v render=%v run=%v  est.cpu=%v\n",
+			f.Name, f.Size, valid, skipped, len(ps), tAt/time.Duration(cnt), tRef/np, tRender/np, tRun/np, est.Round(time.Second))
 	}
-	t0 := time.Now()
-	for _, p := range ps {
-		reflua.Run(p, nil)
-	}
-	fmt.Println("reflua", time.Since(t0)/N)
-	t0 = time.Now()
-	var srcs []string
-	for _, p := range ps {
-		s, _ := prog.Render(p, prog.Plain)
-		srcs = append(srcs, s)
-	}
-	fmt.Println("render", time.Since(t0)/N)
-	t0 = time.Now()
-	for range ps {
-		m := host.NewMachine(false)
-		m.Close()
-	}
-	fmt.Println("machine", time.Since(t0)/N)
-	t0 = time.Now()
-	for _, s := range srcs {
-		m := host.NewMachine(false)
-		m.Exec("chunk", s, nil, &rt.RuntimeContextDef{HardLimits: rt.RuntimeResources{Cpu: 5000000}})
-		m.Close()
-	}
-	fmt.Println("machine+exec", time.Since(t0)/N)
-	m := host.NewMachine(false)
-	t0 = time.Now()
-	for _, s := range srcs {
-		m.Exec("chunk", s, nil, nil)
-	}
-	fmt.Println("exec only (shared machine)", time.Since(t0)/N)
+	fmt.Printf("total estimated CPU %v  (= %v on 16 cores)\n", total.Round(time.Second), (total / 16).Round(time.Second))
 }
